@@ -16,7 +16,7 @@ MANIFEST = dict(
          "'Proved knowledge of the credential' = presented md5(token||ts); replay of an old pair is not excluded (DESIGN 4a). "
          "The NewWorkConn plugin chain is an oracle whose OUTPUT is what gets verified (scripted http plugin in the driver); Login/Ping/NewProxy hooks are the identity (C15). Only observed, not proved: behaviour on websocket/tls/kcp/quic listeners, "
          "connection closure after a refusal, liveness of the victim session after a barrage.",
-    technique="Coq proof (invariant by induction over fold_left step) + differential correspondence via vm_compute + trace monitors",
+    technique="Coq proof (invariant by induction over fold_left step) + translator unit t4auth (token.go Verify*, ConstantTimeEqString, RegisterControl -> gen/GenAuth.v, reflective shape theorems) + differential correspondence via vm_compute + trace monitors",
     design="4/C04")
 
 
@@ -33,7 +33,7 @@ REQUIRED = ["NLOGINOK", "NLOGINREFUSED", "NWORKPOOLED", "NWORKSILENT", "NWORKAUT
 
 
 def recipe(c: Check):
-    c.build(["Properties/C04.vo", "Corr/C04.vo"], harness=["c04"])
+    c.build(["Properties/C04.vo", "Corr/C04.vo"], harness=["c04"], units=["t4auth"])
     c.obligations("C04")
     st = c.run_driver("auth", q(c.tier, 240, 4000), shards=q(c.tier, 8, 16))
     if st is not None:
